@@ -110,7 +110,7 @@ def ok_for(carrier, vals):
         return len(vals) == 1 and is_exact_float(vals[0]) and vals[0].denominator.bit_length() <= 80
     if carrier == 'decimal':
         # decimal.Decimal holds a dyadic rational exactly (it need not be a double); the context precision must not round it
-        return len(vals) == 1 and vals[0].denominator.bit_length() <= 60 and len(dec_string(vals[0]).replace('-', '').replace('.', '')) <= 27
+        return len(vals) == 1 and vals[0].denominator.bit_length() <= 160 and len(dec_string(vals[0]).replace('-', '').replace('.', '')) <= 200     # (Decimal(str) is exact whatever the context precision)
     if carrier in ('list', 'tuple', 'nested'):
         return all(v.denominator == 1 or is_exact_float(v) for v in vals)
     if carrier == 'listf':
